@@ -20,6 +20,8 @@ Firsts == {"connect_valid", "connect_unknown_object", "connect_bad_payload", "co
 \* return:huge - the validator accepts with an answer that does not fit into a message of the size the daemon may send
 Validators == {"accept", "return:None", "return:False", "return:0", "return:list", "return:lock", "return:huge", "raise:ValueError", "raise:KeyError",
                "raise:SecurityError", "raise:ConnectionClosedError", "raise:PyroError", "raise:TimeoutError",
+               \* the validator's reason contains text that is not valid unicode (a file name): the refusal must still be said
+               "raise:OddTextError",
                \* the validator refuses with an exception that has no message: there is no reason text to demand, but it is a refusal
                "raise:EmptyPermissionError", "raise:EmptySecurityError"}
 NoMessage == {"raise:EmptyPermissionError", "raise:EmptySecurityError"}
